@@ -13,8 +13,13 @@ Syntax rules respected (DESIGN 2.10): a program and its arguments end the line; 
 program / the matcher after `-from PROGRAM` are on lines of their own; one FILE-SPEC / FILE-CONDITION per line;
 operators and parentheses are separate tokens; here-document markers alone at the end of the line.
 
+Besides symbols, a case may give a *configuration value* that suite-level instructions depend on: pools of type
+`conf:home` / `conf:act-home` are rendered as `home = DIR` / `act-home = DIR` in the case's [conf] phase (the suite's
+instructions then resolve `-rel-home` / `-rel-act-home` paths against another directory in every case).
+
 Fixtures made by the suite's [setup] for every case (in the sandbox's tmp/ directory): data.txt (5 lines), other.txt
-(2 lines), tree/ (f1.txt, f2.log, sub/g.txt); in the home directory (made by the harness): h1.txt, h2.txt, hdir/in1.
+(2 lines), tree/ (f1.txt, f2.log, sub/g.txt); in the home directory (made by the harness): h1.txt, h2.txt, hdir/in1,
+which.txt, which.py, and the directories hA/ and hB/ with files of the same names but other contents (hA/onlyA.txt).
 """
 from hypothesis import strategies as st
 
@@ -27,7 +32,14 @@ FIXTURE_LINES = [
     'file -rel-tmp other.txt = <<EOF', 'o1 y', 'o2 x', 'EOF',
     'dir -rel-tmp tree = {', '  file f1.txt = "x"', '  file f2.log', '  dir sub = {', '    file g.txt', '  }', '}',
 ]
-HOME_FILES = {'h1.txt': 'h1 x\nh1 y\n', 'h2.txt': 'h2 only\n', 'hdir/in1': 'in1\n'}
+HOME_FILES = {'h1.txt': 'h1 x\nh1 y\n', 'h2.txt': 'h2 only\n', 'hdir/in1': 'in1\n', 'which.txt': 'which: default x\n',
+              'which.py': 'print("py-default")\n'}
+for _d in ('hA', 'hB'):
+    HOME_FILES.update({_d + '/h1.txt': 'h1 x\nh1 y %s\n' % _d, _d + '/h2.txt': 'h2 only %s\n' % _d,
+                       _d + '/hdir/in1': 'in1 %s\n' % _d, _d + '/which.txt': 'which: %s y\n' % _d,
+                       _d + '/which.py': 'print("py-%s")\n' % _d})
+HOME_FILES['hA/onlyA.txt'] = 'only in hA\n'
+HOME_FILES['h(x/which.txt'] = 'which: h(x\n'
 
 # ---- pools: name -> (type, [valid values], [invalid values of the right type]) -----------------------------------
 POOLS = {
@@ -61,7 +73,8 @@ POOLS = {
     'FSM': ('files-matcher', ['is-empty', 'num-files == 3', 'num-files == 1', 'any file : type dir',
                               'every file : type file', '! is-empty'], ['num-files == x']),
     'FC': ('files-condition', ['{\n  f1.txt\n}', '{\n  f1.txt : type file\n  sub : type dir\n}', '{\n  nope\n}',
-                               '{\n  f2.log : type dir\n}', '{\n  sub/g.txt\n  f2.log\n}'], []),
+                               '{\n  f2.log : type dir\n}', '{\n  sub/g.txt\n  f2.log\n}',
+                               '{\n  f1.txt\n  f2.log\n  sub\n}'], []),
     'FS': ('files-source', ['{\n  file a.txt = "A"\n}', '{\n  dir dd\n  file b.txt\n}', 'dir-contents-of -rel-tmp tree',
                             '{\n  dir e = {\n    file deep.txt = "deep"\n  }\n}'], ['dir-contents-of -rel-tmp nodir']),
     'TS': ('text-source', ['"const text"', '-contents-of -rel-tmp other.txt', '-stdout-from $ echo from-program',
@@ -71,6 +84,20 @@ POOLS = {
     'PGM': ('program', ['$ echo pgm-one', '% echo a b', '$ cat', '$ exit 1', '$ tr a-z A-Z', '% true',
                         '$ echo to-stderr >&2; echo to-stdout', '-python -c "print(6*7)"'],
             ['% no-such-program-verif-c17']),
+    # --- further pools (second round)
+    'REFULL': ('string', ["'.. x'", "'a1.*'", "'[a-e][1-5] [xy]'", 'nomatch', "'.*y'"], ["'['"]),
+    'TEXTFULL': ('string', ["'(?s).*'", "'(?s)a1.*x.'", "'a1 x'", "'(?s).*e5 x\\n'"], ["'(?'"]),
+    'NAME_RE': ('string', ['^f', 'txt$', 'log', '1', 'nomatch', "'^(f|s)'"], ["'*'"]),
+    'SUFFIX': ('string', ['.txt', '.log', '.none', "'.t*'"], []),
+    'TREEFILE': ('string', ['f1.txt', 'nope', 'sub', 'f2.log', 'sub/g.txt'], []),
+    'ENVNAME': ('string', ['VERIF_C17_N1', 'VERIF_C17_N2', 'VERIF_C17_N3'], []),
+    'PGMNAME': ('string', ['echo', 'printf', 'expr'], ['no-such-program-verif-c17']),
+    'TSHORT': ('string', ['1', '4'], []),
+    'ESC': ('string', ["'a b'", '"q\'s"', "'$HOME'", "'*'", "'two  spaces'"], []),
+    'HOME': ('conf:home', ['hA', 'hB', '.'], ['nodir']),
+    'ACTHOME': ('conf:act-home', ['hA', 'hB', '.'], ['nodir']),
+    # a home directory whose name is not a valid regular expression
+    'HOMERX': ('conf:home', ['hA', '"h(x"', 'hB'], []),
 }
 WRONG_TYPE = {  # a definition of another type than the one the pool's consumers need
     'string': ('line-matcher', 'constant true'), 'list': ('text-matcher', 'is-empty'),
@@ -81,13 +108,24 @@ WRONG_TYPE = {  # a definition of another type than the one the pool's consumers
 }
 
 
+def is_conf_pool(pool):
+    return POOLS[pool][0].startswith('conf:')
+
+
+def pool_values(pool):
+    """every value a case may give for a symbol of the pool (valid, invalid, wrong type, missing)"""
+    typ, valid, invalid = POOLS[pool]
+    return list(range(len(valid))) + [['bad', i] for i in range(len(invalid))] + \
+        ([] if is_conf_pool(pool) else ['wrong']) + ['missing']
+
+
 def pool_value(pool, v):
     """v: int index into valid values | ['bad', i] | 'wrong' | 'missing'  ->  (type, value text) or None"""
     typ, valid, invalid = POOLS[pool]
     if v == 'missing':
         return None
     if v == 'wrong':
-        return WRONG_TYPE[typ]
+        return WRONG_TYPE.get(typ)  # None (= nothing said) for configuration values
     if isinstance(v, list):
         return typ, invalid[v[1] % len(invalid)]
     return typ, valid[v % len(valid)]
@@ -99,8 +137,10 @@ _ANY = ['setup', 'before-assert', 'assert', 'cleanup']
 _ASSERT = ['assert']
 
 
-def _u(uid, phases, syms, lines, out=None, kind='V', conf=None):
-    return {'id': uid, 'phases': phases, 'syms': syms, 'lines': lines, 'out': out, 'kind': kind, 'conf': conf or []}
+def _u(uid, phases, syms, lines, out=None, kind='V', conf=None, setup=None):
+    """conf / setup: further lines of the unit for the suite's [conf] / [setup] section"""
+    return {'id': uid, 'phases': phases, 'syms': syms, 'lines': lines, 'out': out, 'kind': kind, 'conf': conf or [],
+            'setup': setup or []}
 
 
 UNITS = [
@@ -193,6 +233,155 @@ UNITS = [
     _u('a_shell_test', _ANY, {'S': 'WORD'}, ['$ test "@[{S}]@" = x'], kind='A'),
     _u('a_pgm_grep', _ANY, {'S': 'WORD'}, ['% grep -q -e @[{S}]@ @[EXACTLY_TMP]@/data.txt'], kind='A'),
     _u('a_pgm_list', _ANY, {'L': 'LIST'}, ["% sh -c 'test $# -eq 2' sh @[{L}]@"], kind='A'),
+    # ===== second round: further instruction kinds and argument positions ==========================================
+    # --- text transformers
+    _u('v_replace_at_int', _ANY, {'N': 'INT5'},
+       ['file -rel-tmp {out} = %s -transformed-by replace -at line-num == @[{N}]@ x Q' % _D], 'file'),
+    _u('v_replace_at_lm', _ANY, {'LM': 'LM', 'S': 'WORD'},
+       ['file -rel-tmp {out} = %s -transformed-by replace -at @[{LM}]@ -preserve-new-lines . @[{S}]@' % _D], 'file'),
+    _u('v_grep_full', _ANY, {'RE': 'REFULL'}, ['file -rel-tmp {out} = %s -transformed-by grep -full @[{RE}]@' % _D],
+       'file'),
+    _u('v_filter_matches_full', _ANY, {'RE': 'REFULL'},
+       ['file -rel-tmp {out} = %s -transformed-by filter contents matches -full @[{RE}]@' % _D], 'file'),
+    _u('v_linenums_mixed', _ANY, {'R': 'RANGE'},
+       ['file -rel-tmp {out} = %s -transformed-by filter -line-nums 5 @[{R}]@' % _D], 'file'),
+    _u('v_linenums_part', _ANY, {'N': 'INT5'},
+       ['file -rel-tmp {out} = %s -transformed-by filter -line-nums 2:@[{N}]@' % _D], 'file'),
+    _u('v_run_tt_args', _ANY, {'S': 'WORD'},
+       ['file -rel-tmp {out} = ' + _D + ' -transformed-by run % grep -e @[{S}]@'], 'file'),
+    _u('v_tt_name', _ANY, {'TT': 'TT'}, ['file -rel-tmp {out} = %s -transformed-by {TT}' % _D], 'file'),
+    # --- text sources
+    _u('v_ts_stderr', _ANY, {'S': 'WORD'}, ['file -rel-tmp {out} = -stderr-from $ echo "e-@[{S}]@" >&2'], 'file'),
+    _u('v_ts_stdout_shell', _ANY, {'S': 'WORD'}, ['file -rel-tmp {out} = -stdout-from $ echo "o-@[{S}]@"'], 'file'),
+    _u('v_file_append', _ANY, {'S': 'WORD', 'TS': 'TS'},
+       ['file -rel-tmp {out} = "first @[{S}]@"', 'file -rel-tmp {out} += @[{TS}]@'], 'file'),
+    _u('v_heredoc_esc', _ANY, {'E': 'ESC'}, ['file -rel-tmp {out} = <<EOF', '[@[{E}]@]', 'EOF'], 'file'),
+    # --- programs and their arguments
+    _u('v_pgm_name', _ANY, {'PN': 'PGMNAME'}, ['file -rel-tmp {out} = -stdout-from -ignore-exit-code % @[{PN}]@ 7 + 1'],
+       'file'),
+    _u('v_pgm_existing_file', _ANY, {'F': 'FNAME'},
+       ['file -rel-tmp {out} = -stdout-from % cat -existing-file -rel-tmp @[{F}]@'], 'file'),
+    _u('v_pgm_existing_path', _ANY, {'P': 'PATH_F'},
+       ['file -rel-tmp {out} = -stdout-from % cat -existing-file @[{P}]@'], 'file'),
+    _u('v_pgm_existing_dir', _ANY, {'DN': 'DNAME'},
+       ['file -rel-tmp {out} = -stdout-from % ls -existing-dir -rel-tmp @[{DN}]@'], 'file'),
+    _u('v_pgm_esc_args', _ANY, {'E': 'ESC', 'L': 'LIST'},
+       ["file -rel-tmp {out} = -stdout-from % printf '[%s]' @[{E}]@ @[{L}]@ end"], 'file'),
+    _u('v_python', _ANY, {'S': 'WORD'},
+       ['file -rel-tmp {out} = -stdout-from -python -c "print(\'py-@[{S}]@\')"'], 'file'),
+    _u('v_pgm_sym_extra_args', _ANY, {'PGM': 'PGM', 'S': 'WORD'},
+       ['file -rel-tmp {out} = -stdout-from -ignore-exit-code @ {PGM} @[{S}]@'], 'file'),
+    _u('v_pgm_stdin_heredoc', _ANY, {'S': 'WORD'},
+       ['file -rel-tmp {out} = -stdout-from % cat', '  -stdin <<EOF', 'in @[{S}]@', 'EOF'], 'file'),
+    _u('v_run_out', _ANY, {'S': 'WORD', 'L': 'LIST'},
+       ['run % sh -c \'echo "$@" > "$0"\' @[EXACTLY_TMP]@/{out} @[{S}]@ @[{L}]@'], 'file'),
+    # --- environment
+    _u('v_env_name', _ANY, {'EN': 'ENVNAME'},
+       ['env @[{EN}]@ = "set"', '$ echo "1=${VERIF_C17_N1-unset} 2=${VERIF_C17_N2-unset} 3=${VERIF_C17_N3-unset}" > '
+                                '@[EXACTLY_TMP]@/{out}'], 'file'),
+    _u('v_env_unset', _ANY, {'EN': 'ENVNAME'},
+       ['env VERIF_C17_N1 = "a"', 'env VERIF_C17_N2 = "b"', 'env unset @[{EN}]@',
+        '$ echo "1=${VERIF_C17_N1-unset} 2=${VERIF_C17_N2-unset}" > @[EXACTLY_TMP]@/{out}'], 'file'),
+    _u('v_env_ts', _ANY, {'TS': 'TS'},
+       ['env VERIF_C17_U = @[{TS}]@', '$ echo "[$VERIF_C17_U]" > @[EXACTLY_TMP]@/{out}'], 'file'),
+    _u('v_env_chain', _ANY, {'S': 'WORD'},
+       ['env VERIF_C17_U = "@[{S}]@"', 'env VERIF_C17_W = "${VERIF_C17_U}-more"',
+        '$ echo "$VERIF_C17_W" > @[EXACTLY_TMP]@/{out}'], 'file'),
+    _u('v_env_heredoc', _ANY, {'S': 'WORD'},
+       ['env VERIF_C17_U = <<EOF', 'doc @[{S}]@', 'EOF', '$ echo "[$VERIF_C17_U]" > @[EXACTLY_TMP]@/{out}'], 'file'),
+    # --- files and directories
+    _u('v_dir_dco', _ANY, {'PD': 'PATH_D'}, ['dir -rel-tmp {out} = dir-contents-of @[{PD}]@'], 'dir'),
+    _u('v_dir_dco_name', _ANY, {'DN': 'DNAME'}, ['dir -rel-tmp {out} = dir-contents-of -rel-tmp @[{DN}]@'], 'dir'),
+    _u('v_dir_append', _ANY, {'S': 'WORD', 'FS': 'FS'},
+       ['dir -rel-tmp {out} = {', '  file first-@[{S}]@', '}', 'dir -rel-tmp {out} += @[{FS}]@'], 'dir'),
+    _u('v_copy_name_dst', _ANY, {'S': 'WORD'}, ['dir -rel-tmp {out}', 'copy -rel-tmp data.txt -rel-tmp {out}/@[{S}]@'],
+       'dir'),
+    _u('v_path_rel_sym', _ANY, {'PD': 'PATH_D'}, ['copy -rel {PD} . -rel-tmp {out}'], 'dir'),
+    _u('v_path_sym_prefix', _ANY, {'PD': 'PATH_D'}, ['file -rel-tmp {out} = -stdout-from % ls @[{PD}]@/'], 'file'),
+    # --- suite-level definitions that refer to symbols of the case
+    _u('v_def_list', _ANY, {'S': 'WORD', 'L': 'LIST'},
+       ['def list {X} = pre @[{S}]@ @[{L}]@', 'file -rel-tmp {out} = -stdout-from % echo @[{X}]@'], 'file'),
+    _u('v_def_chain2', _ANY, {'S': 'WORD', 'L': 'LIST'},
+       ['def string {X} = "@[{S}]@-d"', 'def list {X}2 = @[{X}]@ @[{L}]@ end', 'def program {X}3 = % echo @[{X}2]@',
+        'file -rel-tmp {out} = -stdout-from @ {X}3 last'], 'file'),
+    _u('v_def_path', _ANY, {'F': 'FNAME'},
+       ['def path {X} = -rel-tmp @[{F}]@', 'file -rel-tmp {out} = -contents-of @[{X}]@'], 'file'),
+    _u('v_def_pgm', _ANY, {'S': 'WORD'},
+       ['def program {X} = % echo @[{S}]@', 'file -rel-tmp {out} = -stdout-from @ {X} more'], 'file'),
+    _u('v_def_tm', _ANY, {'RE': 'REGEX'},
+       ['def text-matcher {X} = matches @[{RE}]@', 'file -rel-tmp {out} = %s -transformed-by filter contents {X}' % _D],
+       'file'),
+    _u('v_def_lm', _ANY, {'RE': 'REGEX'},
+       ['def line-matcher {X} = contents matches @[{RE}]@', 'file -rel-tmp {out} = %s -transformed-by filter {X}' % _D],
+       'file'),
+    _u('v_def_im', _ANY, {'N': 'INT5'},
+       ['def integer-matcher {X} = >= @[{N}]@', 'file -rel-tmp {out} = %s -transformed-by filter line-num {X}' % _D],
+       'file'),
+    _u('v_def_ts', _ANY, {'S': 'WORD'},
+       ['def text-source {X} = "ts-@[{S}]@"', 'file -rel-tmp {out} = @[{X}]@'], 'file'),
+    _u('v_def_fs', _ANY, {'S': 'WORD'},
+       ['def files-source {X} = {', '  file @[{S}]@.txt = "@[{S}]@"', '}', 'dir -rel-tmp {out} = @[{X}]@'], 'dir'),
+    _u('a_def_fm', _ASSERT, {'G': 'GLOB'},
+       ['def file-matcher {X} = name @[{G}]@', 'dir-contents -rel-tmp tree : -selection {X} num-files == 1'], kind='A'),
+    _u('a_def_fsm', _ASSERT, {'N': 'INT01'},
+       ['def files-matcher {X} = num-files == @[{N}]@', 'dir-contents -rel-tmp tree/sub : {X}'], kind='A'),
+    _u('a_def_fc', _ASSERT, {'TF': 'TREEFILE'},
+       ['def files-condition {X} = {', '  @[{TF}]@', '}', 'dir-contents -rel-tmp tree : matches {X}'], kind='A'),
+    # --- what the case's [conf] says about home / act-home
+    _u('v_home_contents', _ANY, {'HM': 'HOME'}, ['file -rel-tmp {out} = -contents-of -rel-home which.txt'], 'file'),
+    _u('v_home_copy', _ANY, {'HM': 'HOME'}, ['copy -rel-home hdir -rel-tmp {out}'], 'dir'),
+    _u('v_home_python', _ANY, {'HM': 'HOME'},
+       ['file -rel-tmp {out} = -stdout-from -python -existing-file -rel-home which.py'], 'file'),
+    _u('v_home_symbol', _ANY, {'HM': 'HOME'}, ['file -rel-tmp {out} = "@[EXACTLY_HOME]@"'], 'file'),
+    _u('v_home_def_path', _ANY, {'HM': 'HOME'},
+       ['def path {X} = -rel-home which.txt', 'file -rel-tmp {out} = -contents-of @[{X}]@'], 'file'),
+    _u('v_acthome_contents', _ANY, {'AH': 'ACTHOME'}, ['file -rel-tmp {out} = -contents-of -rel-act-home which.txt'],
+       'file'),
+    _u('a_home_exists', _ASSERT, {'HM': 'HOME'}, ['exists -rel-home onlyA.txt : type file'], kind='A'),
+    _u('a_home_contents', _ASSERT, {'HM': 'HOME', 'RE': 'REGEX'},
+       ['contents -rel-home which.txt : matches @[{RE}]@'], kind='A'),
+    _u('a_home_in_regex', _ASSERT, {'HM': 'HOMERX'}, ['contents -rel-home which.txt : ! matches @[EXACTLY_HOME]@'],
+       kind='A'),  # the regex (validated after the sandbox is made) depends on the home directory
+    # --- assertions, second round
+    _u('a_stderr_tm', _ASSERT, {'TM': 'TM'}, ['stderr ! @[{TM}]@'], kind='A'),
+    _u('a_matches_full', _ASSERT, {'RE': 'TEXTFULL'}, ['contents -rel-tmp data.txt : matches -full @[{RE}]@'],
+       kind='A'),
+    _u('a_equals_heredoc', _ASSERT, {'S': 'WORD'},
+       ['contents -rel-tmp other.txt : equals <<EOF', 'o1 @[{S}]@', 'o2 x', 'EOF'], kind='A'),
+    _u('a_exists_name', _ASSERT, {'F': 'FNAME'}, ['exists -rel-tmp @[{F}]@'], kind='A'),
+    _u('a_exists_neg_name', _ASSERT, {'TF': 'TREEFILE'}, ['exists ! -rel-tmp tree/@[{TF}]@ : type file'], kind='A'),
+    _u('a_contents_name', _ASSERT, {'F': 'FNAME'}, ['contents -rel-tmp @[{F}]@ : num-lines == 5'], kind='A'),
+    _u('a_dc_name', _ASSERT, {'DN': 'DNAME'}, ['dir-contents -rel-tmp @[{DN}]@ : num-files == 3'], kind='A'),
+    _u('a_dc_name_re', _ASSERT, {'NRE': 'NAME_RE'},
+       ['dir-contents -rel-tmp tree : -selection name ~ @[{NRE}]@ num-files == 1'], kind='A'),
+    _u('a_dc_stem', _ASSERT, {'G': 'GLOB'}, ['dir-contents -rel-tmp tree : -selection stem @[{G}]@ num-files >= 2'],
+       kind='A'),
+    _u('a_dc_suffix', _ASSERT, {'SUF': 'SUFFIX'},
+       ['dir-contents -rel-tmp tree : -selection suffix @[{SUF}]@ num-files == 1'], kind='A'),
+    _u('a_dc_path_glob', _ASSERT, {'G': 'GLOB'},
+       ['dir-contents -rel-tmp tree : -recursive -selection path **/@[{G}]@ num-files == 1'], kind='A'),
+    _u('a_dc_pruned', _ASSERT, {'G': 'GLOB', 'IM': 'IM'},
+       ['dir-contents -rel-tmp tree : -recursive -with-pruned name @[{G}]@ num-files @[{IM}]@'], kind='A'),
+    _u('a_dc_fc_full', _ASSERT, {'FC': 'FC'}, ['dir-contents -rel-tmp tree : matches -full @[{FC}]@'], kind='A'),
+    _u('a_dc_fc_names', _ASSERT, {'TF': 'TREEFILE', 'FM': 'FM'},
+       ['dir-contents -rel-tmp tree : matches {', '  @[{TF}]@ : @[{FM}]@', '}'], kind='A'),
+    _u('a_dc_mindepth', _ASSERT, {'N': 'INT01'},
+       ['dir-contents -rel-tmp tree : -recursive -min-depth @[{N}]@ num-files >= 2'], kind='A'),
+    _u('a_fm_contents', _ASSERT, {'TM': 'TM'}, ['exists -rel-tmp data.txt : contents @[{TM}]@'], kind='A'),
+    _u('a_fm_dc', _ASSERT, {'FSM': 'FSM'}, ['exists -rel-tmp tree : dir-contents @[{FSM}]@'], kind='A'),
+    _u('a_fm_run', _ASSERT, {'S': 'WORD'}, ['exists -rel-tmp data.txt : run % grep -q -e @[{S}]@'], kind='A'),
+    _u('a_tm_run', _ASSERT, {'S': 'WORD'}, ['contents -rel-tmp data.txt : run % grep -q -e @[{S}]@'], kind='A'),
+    _u('a_exists_rel_sym', _ASSERT, {'PD': 'PATH_D'}, ['exists -rel {PD} f1.txt : type file'], kind='A'),
+    _u('a_stdout_from_args', _ASSERT, {'S': 'WORD'}, ['stdout -from % echo @[{S}]@', '  matches ^[xy]'], kind='A'),
+    _u('a_stderr_from', _ASSERT, {'PGM': 'PGM'}, ['stderr -from @ {PGM}', '  is-empty'], kind='A'),
+    _u('a_exit_from_sh', _ASSERT, {'N': 'INT01'}, ['exit-code -from $ exit @[{N}]@', '  == 1'], kind='A'),
+    _u('a_run_args', _ANY, {'S': 'WORD', 'L': 'LIST'}, ["run % test @[{S}]@ '=' @[{L}]@"], kind='A'),
+    _u('a_run_python', _ANY, {'N': 'INT01'}, ['run -python -c "import sys; sys.exit(@[{N}]@)"'], kind='A'),
+]
+# a unit whose result depends on how long a process may run: costs seconds, enumerated by `slow_cases` only
+SLOW_UNITS = [
+    _u('v_timeout_effect', _AFTER_SETUP, {'T': 'TSHORT'},
+       ['timeout = @[{T}]@', '$ sleep 2', 'file -rel-tmp {out} = "survived the sleep"'], 'file'),
 ]
 ACT_UNITS = [
     _u('act_shell', ['act'], {'S': 'WORD'}, ['$ echo "act-@[{S}]@"'], kind='ACT'),
@@ -201,9 +390,16 @@ ACT_UNITS = [
     _u('act_source', ['act'], {'I': 'INTERP', 'S': 'WORD'}, ['echo "src-@[{S}]@"'], kind='ACT',
        conf=['actor = source % @[{I}]@']),
     _u('act_file', ['act'], {'H': 'HNAME'}, ['@[{H}]@'], kind='ACT', conf=['actor = file % cat']),
+    _u('act_file_acthome', ['act'], {'AH': 'ACTHOME'}, ['which.txt'], kind='ACT', conf=['actor = file % cat']),
+    _u('act_args_esc', ['act'], {'E': 'ESC'}, ["% printf '[%s]' @[{E}]@ end"], kind='ACT'),
+    _u('act_stdin_home', ['act'], {'HM': 'HOME'}, ['$ cat'], kind='ACT',
+       setup=['stdin = -contents-of -rel-home which.txt']),
+    _u('act_env_home', ['act'], {'HM': 'HOME'}, ['$ echo "[$VERIF_C17_U]"'], kind='ACT',
+       setup=['env -of act VERIF_C17_U = -contents-of -rel-home which.txt']),
+    _u('act_source_heredoc', ['act'], {'S': 'WORD'}, ['cat <<EOF', 'src @[{S}]@', 'EOF'], kind='ACT',
+       conf=['actor = source % sh']),
 ]
-BY_ID = {u['id']: u for u in UNITS + ACT_UNITS}
-LINENUMS_UNITS = {'v_linenums', 'v_linenums2', 'v_def_tt', 'a_linenums_numlines'}  # consume a symbol as -line-nums range
+BY_ID = {u['id']: u for u in UNITS + ACT_UNITS + SLOW_UNITS}
 
 
 def sym_name(k, role):
@@ -230,7 +426,7 @@ def render_unit(unit_inst, k):
     elif u['out'] == 'dir':
         lines.append('$ (cd "@[EXACTLY_TMP]@" && find %s | sort && find %s -type f -exec cat {} +) | '
                      'awk -v p="%s" \'{print p $0}\' >> {MARKERS}' % (out, out, prefix))
-    return [sub(l) for l in u['conf']], lines
+    return [sub(l) for l in u['conf']], lines, [sub(l) for l in u['setup']]
 
 
 def render_def(name, typ_value):
@@ -258,12 +454,14 @@ def render(case):
                 suite_defs.append(render_def(sym_name(k, role), pool_value(pool, v)))
     phases['setup'].extend(suite_defs)
     for k, ui in insts:
-        c, lines = render_unit(ui, k)
+        c, lines, setup = render_unit(ui, k)
         conf.extend(c)
+        phases['setup'].extend(setup)
         phases[ui['phase']].extend(lines)
     if case['act'] is None and not case['case_act']:
         phases['act'].append("$ printf 'o1 y\\no2 x\\n'")
-    phases['before-assert'][0:0] = ACT_DUMP
+    if case['act'] is not None or case['case_act']:
+        phases['before-assert'][0:0] = ACT_DUMP  # what the act phase did depends on the case
     out = ['[cases]', '{CASES}']
     if conf:
         out += ['[conf]'] + conf
@@ -276,10 +474,9 @@ def render(case):
     return files
 
 
-def render_case(case, c, override=None):
-    """override: {symbol name: (type, value)} replaces the case's own definitions (defect models)"""
+def render_case(case, c):
     cid = c['id']
-    ph = {p: [] for p in ['setup', 'act', 'before-assert', 'assert', 'cleanup']}
+    ph = {p: [] for p in ['conf', 'setup', 'act', 'before-assert', 'assert', 'cleanup']}
     insts = [(str(k), ui) for k, ui in enumerate(case['units'])] + ([('A', case['act'])] if case['act'] else [])
     for k, ui in insts:
         u = BY_ID[ui['t']]
@@ -288,16 +485,19 @@ def render_case(case, c, override=None):
                 continue
             d = c['defs']['%s.%s' % (k, role)]
             tv = pool_value(pool, d['v'])
-            name = sym_name(k, role)
-            if override and name in override and tv is not None:
-                tv = override[name]
-            if tv is not None:
-                ph[d['ph']].append(render_def(name, tv))
+            if tv is None:
+                continue
+            if tv[0].startswith('conf:'):
+                line = '%s = %s' % (tv[0][5:], tv[1])
+                if line not in ph['conf']:
+                    ph['conf'] = [l for l in ph['conf'] if not l.startswith(tv[0][5:] + ' = ')] + [line]
+            else:
+                ph[d['ph']].append(render_def(sym_name(k, role), tv))
     if case['act'] is None and case['case_act']:
         ph['act'].append('$ echo case-%s; exit %d' % (cid, c.get('exit', 0)))
     ph['cleanup'].insert(0, '$ echo "@[EXACTLY_TMP]@|CASE|%s" >> {MARKERS}' % cid)
     out = []
-    for p in ['setup', 'act', 'before-assert', 'assert', 'cleanup']:
+    for p in ['conf', 'setup', 'act', 'before-assert', 'assert', 'cleanup']:
         if ph[p]:
             out += ['[%s]' % p] + ph[p]
     return '\n'.join(out) + '\n'
@@ -306,8 +506,9 @@ def render_case(case, c, override=None):
 # ---- strategy -----------------------------------------------------------------------------------------------------
 def _value(draw, pool, odd_ok=True):
     typ, valid, invalid = POOLS[pool]
-    kind = draw(w([('valid', 46), ('bad', 2 if invalid and odd_ok else 0), ('wrong', 1 if odd_ok else 0),
-                   ('missing', 1 if odd_ok else 0)]))
+    kind = draw(w([('valid', 46), ('bad', 2 if invalid and odd_ok else 0),
+                   ('wrong', 1 if odd_ok and not is_conf_pool(pool) else 0),
+                   ('missing', (6 if is_conf_pool(pool) else 1) if odd_ok else 0)]))
     if kind == 'valid':
         return draw(st.integers(0, len(valid) - 1))
     if kind == 'bad':
@@ -315,7 +516,7 @@ def _value(draw, pool, odd_ok=True):
     return kind
 
 
-_DEF_PHASES_BEFORE = {'act': ['setup'], 'before-assert': ['setup'], 'assert': ['setup', 'setup', 'before-assert'],
+_DEF_PHASES_BEFORE = {'setup': ['setup'], 'act': ['setup'], 'before-assert': ['setup'], 'assert': ['setup', 'setup', 'before-assert'],
                       'cleanup': ['setup', 'setup', 'before-assert', 'assert', 'cleanup']}
 
 _UNIT_IDS_V = [u['id'] for u in UNITS if u['kind'] == 'V']
@@ -336,6 +537,8 @@ def suites_with_symbol_consumers(draw, tier='quick'):
                 phase = draw(st.sampled_from(later))
         sd = {}
         for role, pool in sorted(u['syms'].items()):
+            if is_conf_pool(pool):
+                continue  # said by the [conf] phase of every case
             if phase == 'setup' or chance(draw, 1, 8):
                 sd[role] = _value(draw, pool, odd_ok=False)  # defined by the suite: the same for every case
         units.append({'t': uid, 'phase': phase, 'suite_defs': sd})
@@ -344,7 +547,7 @@ def suites_with_symbol_consumers(draw, tier='quick'):
         aid = draw(st.sampled_from([u['id'] for u in ACT_UNITS]))
         sd = {}
         for role, pool in sorted(BY_ID[aid]['syms'].items()):
-            if chance(draw, 1, 8):
+            if chance(draw, 1, 8) and not is_conf_pool(pool):
                 sd[role] = _value(draw, pool, odd_ok=False)
         act = {'t': aid, 'phase': 'act', 'suite_defs': sd}
     n_cases = draw(w([(2, 5), (3, 4), (4, 1)]))
@@ -358,6 +561,15 @@ def suites_with_symbol_consumers(draw, tier='quick'):
                     defs['%s.%s' % (k, role)] = {'v': _value(draw, pool),
                                                  'ph': draw(st.sampled_from(_DEF_PHASES_BEFORE[ui['phase']]))}
         cases.append({'id': 'c%d' % i, 'defs': defs, 'exit': draw(w([(0, 4), (1, 1)]))})
+    # the point of the exercise: some symbol has another value in another case
+    keys = sorted(cases[0]['defs'])
+    if keys and all(str(c['defs'][k]['v']) == str(cases[0]['defs'][k]['v']) for c in cases for k in keys):
+        k = keys[draw(st.integers(0, len(keys) - 1))]
+        unit_k, role = k.split('.')
+        pool = BY_ID[(act if unit_k == 'A' else units[int(unit_k)])['t']]['syms'][role]
+        n_valid = len(POOLS[pool][1])
+        v0 = cases[0]['defs'][k]['v']
+        cases[-1]['defs'][k]['v'] = ((v0 if isinstance(v0, int) else 0) + 1) % n_valid if n_valid > 1 else 'missing'
     idx = list(range(n_cases))
     orders = [idx, idx[::-1]]
     if n_cases >= 3 and tier != 'quick':
